@@ -363,7 +363,9 @@ func DecodeExclusive[T any](c Cursor, obj Object, decode func(Cursor, Object, bo
 	x.mu.Lock()
 	if v, ok := x.cache[key]; ok {
 		x.mu.Unlock()
-		return v.(T), nil
+		// (comma-ok: a cached nil interface value is an untyped nil, see Decode)
+		r, _ := v.(T)
+		return r, nil
 	}
 	if p, ok := x.wip[key]; ok {
 		x.mu.Unlock()
@@ -372,7 +374,8 @@ func DecodeExclusive[T any](c Cursor, obj Object, decode func(Cursor, Object, bo
 		if p.err != nil {
 			return zero, p.err
 		}
-		return p.val.(T), nil
+		r, _ := p.val.(T)
+		return r, nil
 	}
 	p := &pending{done: make(chan struct{})}
 	x.wip[key] = p
